@@ -6,6 +6,7 @@ import (
 	"github.com/aperturerobotics/bifrost/link"
 	"github.com/aperturerobotics/bifrost/peer"
 	"github.com/aperturerobotics/bifrost/transport/common/dialer"
+	"github.com/aperturerobotics/bifrost/util/verifhook"
 	"github.com/aperturerobotics/util/ccontainer"
 	"github.com/aperturerobotics/util/keyed"
 	"github.com/aperturerobotics/util/promise"
@@ -61,6 +62,7 @@ func (l *linkDialer) executeLinkDialer(
 
 	dialer := dialer.NewDialer(l.c.le, tptDialer, dialOpts, l.key.peerID, l.key.dialAddress)
 	lnk, err := dialer.Execute(subCtx)
+	verifhook.Event("tc.linkdialer.result", l.c, lnk, err)
 	if ctx.Err() != nil {
 		return context.Canceled
 	}
